@@ -454,7 +454,8 @@ def run_check(pid, tier, seed, replay=None):
                 cdir = os.path.join(VERIF, "corpus", pid)
                 if os.path.isdir(cdir):
                     for cf in sorted(os.listdir(cdir)):
-                        if cf.endswith(".case") and (len(parts) == 1 or cf.startswith(part["mode"] + "_")):
+                        unpref = not any(cf.startswith(q.get("mode", "?") + "_") for q in parts if q.get("mode"))
+                        if cf.endswith(".case") and (len(parts) == 1 or cf.startswith(part["mode"] + "_") or (pi == 0 and unpref)):
                             runs.append(("corpus:" + cf, os.path.join(cdir, cf)))
                 runs.append(("generated", None))
                 part_mism = []
